@@ -377,17 +377,30 @@ class PluginRig(object):
         with app.app_context():
             return self.plugin.on_api_get(None).get_json()
 
+    # the optional `tags` argument as OctoPrint's comm layer fills it (file lines, API commands,
+    # scripts); filtering must not depend on it
+    TAGS = [None, {"source:file", "filepos:1234", "fileline:17"}, set(), {"source:api"},
+            {"source:file", "filepos:99", "fileline:3", "trigger:comm.start_print"},
+            {"source:script", "script:afterPrintDone"}, {"source:file"}]
+
     def gcode_hook(self, cmd):
         gcode, subcode = octo_gcode(cmd)
-        return self.plugin.handleGcodeQueuing(self.comm, "queuing", cmd, None, gcode, subcode)
+        self.hookCalls = getattr(self, "hookCalls", 0) + 1
+        tags = self.TAGS[self.hookCalls % len(self.TAGS)]
+        if tags is None:
+            return self.plugin.handleGcodeQueuing(self.comm, "queuing", cmd, None, gcode, subcode)
+        return self.plugin.handleGcodeQueuing(self.comm, "queuing", cmd, None, gcode,
+                                              subcode=subcode, tags=set(tags))
 
     def at_hook(self, command, parameters, streaming=False):
         comm = FakeComm(streaming)
         self.plugin.handleAtCommandQueuing(comm, "queuing", command, parameters)
         return comm.sent
 
-    def script_hook(self, scriptType, scriptName):
-        return self.plugin.handleScriptHook(self.comm, scriptType, scriptName)
+    def script_hook(self, scriptType, scriptName, streaming=False):
+        # (what the comm object reports about streaming to SD is irrelevant to this hook)
+        comm = FakeComm(True) if streaming else self.comm
+        return self.plugin.handleScriptHook(comm, scriptType, scriptName)
 
 
 _FLASK_APP = [None]
